@@ -77,7 +77,7 @@ def test_exprs(spec, seed=None):
     return out
 
 
-GRIDS = [('control', {}), ('control-', {}), ('integrator', {}), ('integrator', {'refine': 2}), ('integrator', {'refine': 3}), ('integrator_roots', {})]      # (refine on grid='control' is honoured by SplineMethod only: C17)
+GRIDS = [('control', {}), ('control-', {}), ('-control', {}), ('-control-', {}), ('integrator', {}), ('integrator', {'refine': 2}), ('integrator', {'refine': 3}), ('integrator_roots', {})]      # (refine on grid='control' is honoured by SplineMethod only: C17)
 
 
 def instances(tier, seed):
@@ -109,6 +109,10 @@ def instances(tier, seed):
                 add(spec=fam.with_horizon(model(dae), h), cfg=Cfg(method, N=N, M=M, intg=intg or 'rk', grid=g, degree=degree, scheme=scheme),
                     exprs_seed=seed * 1000 + 7 * n + 1, soft=True, family='random')
             n += 1
+    # one-point grids: N=1 ('control-', '-control': one point) and N=2 ('-control-': one point); the numeric read-back keeps its time index
+    for mi, (method, intg, N_) in enumerate((('MS', 'rk', 1), ('DC', None, 1), ('SS', 'rk', 2), ('DC', None, 2))):
+        add(spec=fam.with_horizon(model(False), H[mi % len(H)] if method != 'DC' else Hsym[mi % len(Hsym)]),
+            cfg=Cfg(method, N=N_, M=[1, 2][mi % 2], intg=intg or 'rk', grid=fam.G_UNI, degree=2, scheme='radau'))
     return items
 
 
@@ -124,7 +128,7 @@ def run(item):
     spec, cfg = item['spec'], item['cfg']
     N, M = cfg.N, cfg.M
     exprs = test_exprs(spec, item.get('exprs_seed'))
-    grids = [g for g in GRIDS if not (g[0] == 'integrator_roots' and cfg.method != 'DC')]
+    grids = [g for g in GRIDS if not (g[0] == 'integrator_roots' and cfg.method != 'DC') and not (g[0] == '-control-' and cfg.N < 2)]
     plan = []     # (kind, expr name, grid idx, what) aligned with extra outputs
 
     def extra(b):
@@ -183,6 +187,10 @@ def run(item):
         r_, c_ = shape
         npts = len(ex['z'][e_idx]) // (r_ * c_)
         # the returned time vector has one entry per returned value, and is what sampling ocp.t on that grid gives
+        want_n = {'control': N + 1, 'control-': N, '-control': N, '-control-': N - 1, 'integrator': N * M * kw.get('refine', 1) + 1,
+                  'integrator_roots': N * M * cfg.degree}[g]
+        if npts != want_n:
+            V('point-count:%s' % g, 'sample(%s,%s)' % (name, glab), '%d points returned, the grid has %d' % (npts, want_n))
         if len(ex['z'][t_idx]) != npts:
             V('time-length:%s' % g, 'sample(%s,%s)' % (name, glab), 'the time vector has %d entries for %d sampled values' % (len(ex['z'][t_idx]), npts))
         else:
@@ -251,6 +259,10 @@ def run(item):
         """reference value of primitive leaf at point i of grid g"""
         tr = trs[d]
         dom = tr.dom
+        if g in ('-control', '-control-'):
+            # a leading '-' drops the first node: point i is control node i+1
+            i = i + 1
+            g = 'control'
         if g == 'control' and 'refine' in kw:
             # refined control grid: point i lies in control interval i//r at the fraction (i%r)/r; the very last point is the final node
             r_ = kw['refine']
@@ -367,7 +379,7 @@ def run(item):
         done.add(gi)
         n_ = len(ex['z'][idx])
         for i in range(n_):
-            j = i * M if g.startswith('control') else i
+            j = (i + (1 if g.startswith('-') else 0)) * M if 'control' in g else i
             lab = 'anchor q@%s[%d]' % (g, i)
             if not ch.prove(lab, {d: ex[d][idx][i] for d in doms}, {d: qref[d][j][0] for d in doms}) and ch.violations:
                 v = ch.violations.pop()
